@@ -53,8 +53,9 @@ CASES = ["%s:%s:%d" % (sh, kp, sp) for sh in SHAPES for kp in KEYPATS for sp in 
 QUICK = ["flat:u:34", "list:uo:29", "flat:qo:34", "flat:b:34", "flat:oq:29", "nested:qo:34", "list:bq:34", "lod:ob:29", "flat:e:34", "empty:qq:29",
          "flat:oqo:34", "list:oo:29"]
 HARNESSES = [{"fn": "h_lines", "cases": CASES, "quick_cases": QUICK, "timeout": {"quick": 90, "thorough": 300}},
-             {"fn": "h_framing", "cases": ["fwd", "rev"], "timeout": {"quick": 90, "thorough": 300}}]
-FUNCTIONS += ["peltool.extractAllPELsData (JSON array framing)", "json.dumps keyword arguments at peltool.py call sites"]
+             {"fn": "h_framing", "cases": ["fwd", "rev"], "timeout": {"quick": 90, "thorough": 300}},
+             {"fn": "h_written", "cases": ["fresh", "existing", "twice"], "timeout": {"quick": 90, "thorough": 300}}]
+FUNCTIONS += ["peltool.parseAndWriteOutput (the file written by -j)", "peltool.extractAllPELsData (JSON array framing)", "json.dumps keyword arguments at peltool.py call sites"]
 BOUNDS = {"keys": "length 1..3 with a concrete class pattern per case (quote / backslash / non-ASCII e-acute / one of "
                   "'{:, a[]}' symbolic)", "string values": "length 0..2, every character symbolic over the full alphabet "
                   "{\" \\ e-acute { : , space a [ ] }}", "shapes": "{k: v}, {k: [s, s]}, {k: {k2: v}}, {k: []}, [{k: v}]",
@@ -212,3 +213,39 @@ def h_framing() -> bool:
         for o, e in zip(out, exp):
             conds.append(o is e if hasattr(e, "obj") else o == e)
     return verdict(sym_all(conds), obs={"stdout": [o if not hasattr(o, "obj") else "<doc>" for o in out]})
+
+
+def h_written() -> bool:
+    """
+    post: _
+    """
+    # -j: the file written for a PEL holds exactly the document - also when a file of that name already exists (an
+    # earlier run, possibly with a longer text) or the same directory is converted twice
+    hidden = sym_int("hidden", 0, 1)
+    eid = sym_int("eid", 0x50000000, 0x5000000F)
+    pel = pb.PEL(pb.UD(b"\x01\x02", comp=0x4321), ph=dict(eid=eid), uh=dict(flags=sym_ite(hidden == 1, 0x6800, 0xA800)))
+    outp = None
+    for cand in range(16):
+        if eid == 0x50000000 + cand:
+            outp = "/out/a.pel.%08X.json" % (0x50000000 + cand)
+    w = World(files=[("a.pel", pel)], dirs=["/out"])
+    if CASE == "existing":
+        w.extra[outp] = "{" + " " * 100000 + "}"
+    ns = Namespace(**dict(ARG_DEFAULTS, path="/pels", json=True, output_dir="/out"))
+    try:
+        status = run_main(peltool, w, ns)
+        if CASE == "twice":
+            del w.events[:]
+            status = run_main(peltool, w, ns)
+    except Exception as e:
+        return verdict(False, obs={"exception": repr(e)})
+    ev = w.events
+    writes = [e for e in ev if e[0] == "write"]
+    conds = [status == 0, not any(e[0] == "stale_tail" for e in ev)]
+    if hidden == 1:
+        conds.append(writes == [] and not any(e[0] == "open_w" for e in ev))
+    else:
+        conds += [[e[1] for e in ev if e[0] == "open_w"] == [outp], len(writes) == 1, ("close", outp) in ev]
+        if len(writes) == 1:
+            conds += [writes[0][1] == outp, hasattr(writes[0][2], "obj")]
+    return verdict(sym_all(conds), obs={"events": [e[:2] for e in ev], "status": status})
